@@ -2,7 +2,7 @@
 import ECAgent.Core as core
 from ECAgent.Decode import IDecodable
 
-from vlib.fixtures.decodables_state import EVENTS, CURRENT, SHARED, FLAKY   # shared by this module and its alias module
+from vlib.fixtures.decodables_state import EVENTS, CURRENT, SHARED, FLAKY, EXECUTED   # shared by this module and its alias module
 
 MODULE = __name__    # the same source is also loaded under a second module name (same symbol names, different module)
 
@@ -41,7 +41,7 @@ class RModel(core.Model, IDecodable):
 
 class RSystem(core.System, IDecodable):
     def execute(self):
-        pass
+        EXECUTED.append(self.id)
 
     @staticmethod
     def decode(params):
